@@ -30,7 +30,10 @@ class MetricsStatistics:
     """
     Allows to maintain simple running statistics (min/max/sum/count) of metrics
     provided. Statistics are tracked for numeric types only. Types of first added
-    metrics define its types.
+    metrics define its types: for a metric whose first value is numeric, all
+    numeric values are counted (non-numeric values reported in between are
+    skipped with a warning); a metric whose first value is not numeric is not
+    tracked.
     """
 
     def __init__(self):
@@ -44,27 +47,27 @@ class MetricsStatistics:
 
     def add(self, metrics: Dict[str, Any]):
         for metric_name, current_metric in metrics.items():
-            if metric_name in self.is_numeric:
-                if self.is_numeric[metric_name] != isinstance(
-                    current_metric, numbers.Number
-                ):
-                    logging.warning(
-                        f"Numeric and non-numeric values reported for metric {metric_name}."
-                    )
-            if self.is_numeric.get(metric_name, True):
-                self.is_numeric[metric_name] = isinstance(
-                    current_metric, numbers.Number
+            is_number = isinstance(current_metric, numbers.Number)
+            if metric_name not in self.is_numeric:
+                # The type of the first value reported for a metric defines
+                # its type
+                self.is_numeric[metric_name] = is_number
+            elif self.is_numeric[metric_name] != is_number:
+                logging.warning(
+                    f"Numeric and non-numeric values reported for metric {metric_name}."
                 )
-                if self.is_numeric[metric_name]:
-                    self.min_metrics[metric_name] = min(
-                        self.min_metrics.get(metric_name, np_inf), current_metric
-                    )
-                    self.max_metrics[metric_name] = max(
-                        self.max_metrics.get(metric_name, -np_inf), current_metric
-                    )
-                    self.sum_metrics[metric_name] = (
-                        self.sum_metrics.get(metric_name, 0) + current_metric
-                    )
+            # A non-numeric value reported for a numeric metric is skipped. It
+            # must not stop numeric values reported later on from being counted
+            if self.is_numeric[metric_name] and is_number:
+                self.min_metrics[metric_name] = min(
+                    self.min_metrics.get(metric_name, np_inf), current_metric
+                )
+                self.max_metrics[metric_name] = max(
+                    self.max_metrics.get(metric_name, -np_inf), current_metric
+                )
+                self.sum_metrics[metric_name] = (
+                    self.sum_metrics.get(metric_name, 0) + current_metric
+                )
         self.metric_names = list(self.min_metrics.keys())
         self.last_metrics = metrics
         self.count += 1
